@@ -53,3 +53,35 @@ def build(spec):
 def truth(spec, configured, server, now_offset):
     """reference predicate for one certificate"""
     return spec["tamper"] is None and spec["signer"] in configured and spec["server"] == server and spec["expires"] > now_offset
+
+
+class FakeRref:
+    version = {b"http://allmydata.org/tahoe/protocols/storage/v1": {b"maximum-immutable-share-size": 2 ** 40}, b"application-version": b"x"}
+
+    def notifyOnDisconnect(self, *a, **k):
+        return 0
+
+
+def announcement(i, cert_specs, http=False):
+    """announcement dict of storage server number i, as the introducer would deliver it"""
+    from allmydata.util import base32
+    ann = {"anonymous-storage-FURL": "pb://%s@nowhere/x%d" % (str(base32.b2a(hashlib.sha1(b"tub%d" % i).digest()), "ascii"), i), "nickname": "n%d" % i,
+           "grid-manager-certificates": [build(c)[0] for c in cert_specs]}
+    if http:
+        ann["anonymous-storage-NURLs"] = ["pb://%s@127.0.0.1:%d/%s#v=1" % (str(base32.b2a(hashlib.sha256(b"nurl%d" % i).digest()), "ascii").replace("=", ""), 1000 + i, "swiss%d" % i)]
+    return ann
+
+
+def add_connected(broker, server_id, ann):
+    """create the IServer through the broker's own factory (as announcements and static servers do) and mark it connected"""
+    from allmydata.storage_client import HTTPNativeStorageServer
+    from allmydata.util import connection_status
+    s = broker._make_storage_server(server_id, {"ann": dict(ann)})
+    if isinstance(s, HTTPNativeStorageServer):
+        s._connection_status = connection_status.ConnectionStatus(True, "connected (harness)", {}, 0, 0)
+        s._version = FakeRref.version
+    else:
+        s._rref = FakeRref()
+        s._is_connected = True
+    broker.servers[server_id] = s
+    return s
